@@ -54,7 +54,11 @@ Section Tie.
   Proof. unfold get_mined_board, M.mined_flat, scatter_const, IS_MINE. rewrite Lb, Lh, (Z.mul_comm cols rows). reflexivity. Qed.
 
   Lemma explored_src a : explored_mine s a = M.explored_mine rows cols (s_flat_mine_locations s) (fst a) (snd a).
-  Proof. destruct a as [r c]. unfold explored_mine, M.explored_mine, IS_MINE. cbv zeta. rewrite mined_src, Lh. reflexivity. Qed.
+  Proof.
+    destruct a as [r c]. unfold explored_mine, M.explored_mine, IS_MINE. cbv zeta. rewrite mined_src, Lh.
+    (* the flat index up to arithmetic (col + row * n, row * n + col, ...) *)
+    cbn [fst snd]. match goal with |- (jget 0 ?X ?i =? 1) = (jget 0 ?X ?j =? 1) => replace i with j by lia; reflexivity end.
+  Qed.
 
   Lemma valid_src a : is_valid_action s a = M.is_valid_action (s_board s) (fst a) (snd a).
   Proof. reflexivity. Qed.
